@@ -356,6 +356,11 @@ def run(ctx):
     c05.r5_1(ctx, R)
     ctx.rule("R5.1", "see C05 R5.1 (shared): every child poll goes through the accessor applied to the index dequeued in the same "
                      "iteration -- no child is polled out of queue order (e.g. a remembered 'hot' slot polled first)")
+    c01.r1_2(ctx, R)
+    ctx.rule("R1.2", "see C01 R1.2 (shared): a wake enqueues the slot before it notifies the task, under the flag -- a woken child "
+                     "that is in no queue is never polled")
+    c02.r2_6(ctx, R)
+    ctx.rule("R2.6", "see C02 R2.6 (shared): new children enter through `push` only (last group / fresh group), once")
     c01.r1_7(ctx, R)
     ctx.rule("R1.7", "see C01 R1.7 (shared): a pass over the groups polls every group -- the turn order survives the removal of an "
                      "exhausted group, the cursor is moved off a group that was put back, Pending only after all groups had their turn")
